@@ -35,7 +35,7 @@ def run(ctx):
         if res["status"] == "ok":
             fnum.compare_static(ctx, interp, case, res, fp.failer(ctx, case))
     try:
-        fp.explore(ctx, drv, 130 if ctx.tier == "quick" else 2500, per_case, gen=gen, graph_corr=False, pipe_corr=True)
+        fp.explore(ctx, drv, 350 if ctx.tier == "quick" else 2500, per_case, gen=gen, graph_corr=False, pipe_corr=True)
     finally:
         interp.close()
         drv.close()
